@@ -12,8 +12,17 @@
 EXTENDS Policy, Json, SequencesExt
 Trace == ndJsonDeserialize("trace.ndjson")
 
-VARIABLES l, prev, dirty, viol, at
-vars == <<l, prev, dirty, viol, at>>
+VARIABLES l, prev, dirty, viol
+vars == <<l, prev, dirty, viol>>
+\* every flagged step <<t, i, clause, symptom>> is collected in TLC register 1 (not part of the state: the state
+\* stays small however many steps are flagged) and written out in chunks at_<k>.ndjson
+ASSUME TLCSet(1, <<>>) /\ TLCSet(2, 0)
+FlushAt == /\ ndJsonSerialize("at_" \o ToString(TLCGet(2)) \o ".ndjson", TLCGet(1))
+           /\ TLCSet(2, TLCGet(2) + 1)
+           /\ TLCSet(1, <<>>)
+Flag(e, vs) == \/ vs = {}
+               \/ /\ TLCSet(1, TLCGet(1) \o SetToSeq({[t |-> e.t, i |-> e.i, c |-> v[1], s |-> v[2]] : v \in vs}))
+                  /\ (Len(TLCGet(1)) >= 5000 => FlushAt)
 
 \* a line is a flat record: ma/ms (ds/da) = allowlist / suspicious list in memory (in a fresh load of the
 \* file) as bit masks over Names, mw/dw the new-swaps switch, mc/dc accept_all_peers, mr/dr the rest,
@@ -28,7 +37,7 @@ Disk(e) == [ok |-> e.dk, pol |-> [allow |-> SetOf(e.da), susp |-> SetOf(e.ds), s
 Queries(e, mem) == JudgeQueries(mem, Probes, SetOf(e.qa), SetOf(e.qs), e.qw)
 File0(c) == (CHOOSE i \in InitFiles : i.cls = c).file
 
-Init == l = 1 /\ prev = DefaultPol /\ dirty = FALSE /\ viol = {} /\ at = {}
+Init == l = 1 /\ prev = DefaultPol /\ dirty = FALSE /\ viol = {}
 
 StepInit(e) ==
     LET mem == Mem(e)
@@ -41,7 +50,7 @@ StepInit(e) ==
     IN /\ prev' = mem
        /\ dirty' = DiskDiverged(mem, disk)
        /\ viol' = viol \cup {Sig(e.cls, "init", v) : v \in vs}
-       /\ at' = at \cup {<<e.t, e.i, v[1], v[2]>> : v \in vs}
+       /\ Flag(e, vs)
 
 StepOp(e) ==
     LET mem == Mem(e)
@@ -52,17 +61,18 @@ StepOp(e) ==
     IN /\ prev' = mem
        /\ dirty' = DiskDiverged(mem, disk)
        /\ viol' = viol \cup {Sig(e.cls, e.op, v) : v \in vs}
-       /\ at' = at \cup {<<e.t, e.i, v[1], v[2]>> : v \in vs}
+       /\ Flag(e, vs)
 
 Step == /\ l <= Len(Trace)
         /\ LET e == Trace[l] IN
              CASE e.ev = "init" -> StepInit(e)
                [] e.ev = "op" -> StepOp(e)
-               [] OTHER -> /\ viol' = viol \cup {"MODEL|unknown-event"} /\ UNCHANGED <<prev, dirty, at>>
+               [] OTHER -> /\ viol' = viol \cup {"MODEL|unknown-event"} /\ UNCHANGED <<prev, dirty>>
         /\ l' = l + 1
 
 Finish == /\ l = Len(Trace) + 1
-          /\ JsonSerialize("verdict.json", [n |-> Len(Trace), viol |-> SetToSeq(viol), at |-> SetToSeq(at)])
-          /\ l' = l + 1 /\ UNCHANGED <<prev, dirty, viol, at>>
+          /\ FlushAt
+          /\ JsonSerialize("verdict.json", [n |-> Len(Trace), viol |-> SetToSeq(viol), chunks |-> TLCGet(2)])
+          /\ l' = l + 1 /\ UNCHANGED <<prev, dirty, viol>>
 Next == Step \/ Finish
 ===============================================================================
